@@ -70,6 +70,7 @@ type ovOrigin struct {
 	release  chan struct{} // closed to release the held answers
 	held     chan string   // one message per held request
 	calls    []string
+	cc       string // when set: the Cache-Control of every reply
 }
 
 func (o *ovOrigin) RoundTrip(req *http.Request) (*http.Response, error) {
@@ -101,8 +102,13 @@ func (o *ovOrigin) RoundTrip(req *http.Request) (*http.Response, error) {
 	}
 	body := fmt.Sprintf("body-%s-g%d", lang, g)
 	var resp *http.Response
+	if o.cc != "" {
+		h.Set("Cache-Control", o.cc)
+	}
 	if inm != "" {
-		h.Set("Cache-Control", "max-age=600")
+		if o.cc == "" {
+			h.Set("Cache-Control", "max-age=600")
+		}
 		if inm == etag {
 			resp = mk(304, h, "")
 		} else {
@@ -130,7 +136,7 @@ func runOverlap(t *testing.T, scenario string) string {
 		tc := &trackConn{Conn: memcache.Open(), live: map[string]bool{}}
 		dsn := registerConn(tc)
 		defer unregisterConn(dsn)
-		org := &ovOrigin{gen: map[string]int{}, vary: scenario != "replace", release: make(chan struct{}), held: make(chan string, 8)}
+		org := &ovOrigin{gen: map[string]int{}, vary: scenario != "replace" && scenario != "foreground-validated", release: make(chan struct{}), held: make(chan string, 8)}
 		rt := httpcache.NewTransport(dsn, httpcache.WithUpstream(org), httpcache.WithSWRTimeout(30*time.Second))
 		target := "http://a.test/doc"
 		do := func(method, lang, cc string) ovResult {
@@ -178,6 +184,45 @@ func runOverlap(t *testing.T, scenario string) string {
 		lang := ""
 		if org.vary {
 			lang = "en"
+		}
+		if scenario == "foreground-validated" {
+			// C02: the stored response must be validated on every use (no-cache).  Validation A is in flight — the origin has
+			// decided on its 304 — when exchange B finds the representation changed and replaces the entry; then A's 304
+			// arrives.  What A may return is the response its 304 is about, not the successor nobody validated for it.
+			org.cc = "no-cache"
+			r1 := do("GET", lang, "")
+			org.mu.Lock()
+			org.holdNext = 1
+			org.mu.Unlock()
+			done := make(chan ovResult, 1)
+			go func() { done <- do("GET", lang, "") }()
+			if !heldNow() {
+				line = fmt.Sprintf("OVERLAP scenario=%s | the validation did not reach the origin (first=%s) SKIP\n", scenario, r1.status)
+				close(org.release)
+				settle()
+				return
+			}
+			org.mu.Lock()
+			org.gen[lang]++
+			org.mu.Unlock()
+			rb := do("GET", lang, "")
+			close(org.release)
+			ra := <-done
+			settle()
+			rc := do("GET", lang, "")
+			settle()
+			if rb.gen != "-g1" {
+				problems = append(problems, "harness: the second exchange did not fetch the new representation: "+rb.gen)
+			}
+			if ra.status == "REVALIDATED" && ra.body != "body--g0" {
+				problems = append(problems, fmt.Sprintf("unvalidated-successor-returned: a 304 about %q was answered with the body %q, which no validation of this exchange is about", "-g0", ra.body))
+			}
+			v := "ok"
+			if len(problems) > 0 {
+				v = "BAD"
+			}
+			line = fmt.Sprintf("OVERLAP scenario=%s | first=%s/%s in_flight=%s/%s meanwhile=%s/%s later=%s/%s problems=%q %s\n", scenario, r1.status, r1.gen, ra.status, ra.body, rb.status, rb.gen, rc.status, rc.gen, strings.Join(problems, " ; "), v)
+			return
 		}
 		r1 := do("GET", lang, "")
 		var rfr0 ovResult
@@ -292,7 +337,7 @@ func TestOverlap(t *testing.T) {
 		t.Skip("VERIF_OUT not set")
 	}
 	var lines []string
-	for _, sc := range []string{"replace", "second-variant-stored", "second-variant-invalidated", "second-variant-stale", "invalidated"} {
+	for _, sc := range []string{"replace", "second-variant-stored", "second-variant-invalidated", "second-variant-stale", "invalidated", "foreground-validated"} {
 		lines = append(lines, runOverlap(t, sc))
 	}
 	if err := writeLines(filepath.Join(out, "overlap.txt"), lines); err != nil {
